@@ -466,6 +466,18 @@ def _real_one(sc):
             want = sorted((norm(expected_result(s, sc)) for s in E), key=repr)
             got = sorted((norm(x) for x in val), key=repr)
             ctx.check(got == want, "real-pool:lost-duplicated-or-mixed", f"{len(val)} results for {len(E)} executions")
+            # the program's state changes (other completion times) and the batch is repeated with the SAME process count: the
+            # executions must be built from the state of THIS call, not from whatever an earlier call's workers remember
+            sc2 = dict(sc, base_stop=sc["base_stop"] + 2)
+            W.reset({"base_stop": sc2["base_stop"], "spread": sc["spread"], "fail": None, "collectors_defined": COLLECTORS,
+                     "sleep_us": 300})
+            params2, _, coll2 = build_args(sc)          # (fresh argument objects: a one-shot collectors iterable is used up)
+            val2 = B.batch_run(W.BatchModel, params2, **dict(kwargs, collectors=coll2))
+            want2 = sorted((norm(expected_result(s, sc2)) for s in E), key=repr)
+            got2 = sorted((norm(x) for x in val2), key=repr)
+            ctx.check(got2 == want2, "real-pool:stale-worker-state",
+                      "a second parallel batch in the same process (same process count, changed program state) returned records "
+                      "of the earlier state")
     except Violation as v:
         return {"kind": v.kind, "detail": v.detail, "scenario": sc}
     return None
